@@ -1049,3 +1049,41 @@ Proof.
   intros H. unfold run_fold. rewrite !run_fold_run, (history_refines ops xs H). reflexivity.
 Qed.
 
+(** * secindex sums denote the sum of the positions; the boolean validity test is sound *)
+Theorem valid_key_add_index o1 i m o2 j n2 : (i < m)%nat -> (j < n2)%nat ->
+  valid_key (KAdd o1 (uvec (Z.of_nat i) m) o2 (uvec (Z.of_nat j) n2)) (o1 + o2 + (m + n2 - 1)) /\
+  key_index (KAdd o1 (uvec (Z.of_nat i) m) o2 (uvec (Z.of_nat j) n2)) = Z.of_nat (o1 + o2 + i + j).
+Proof.
+  intros Hi Hj. split; [apply valid_key_add; assumption|].
+  cbn [key_index]. rewrite !uvec_length, !dot_uvec_iota by assumption. lia.
+Qed.
+
+Lemma valid_keyb_sound k n : valid_keyb k n = true -> valid_key k n.
+Proof.
+  unfold valid_keyb, valid_key. intros H.
+  apply andb_prop in H. destruct H as [H H3]. apply andb_prop in H. destruct H as [H1 H2].
+  destruct (list_eq_dec Z.eq_dec (key_vec k n) (uvec (key_index k) n)) as [E|E]; [|discriminate].
+  split; [lia|exact E].
+Qed.
+
+Theorem get_number_and_unit_vector (xs : list Z) (a : nat) : (a < length xs)%nat ->
+  getitem xs (KNum (Z.of_nat a)) = Ok (nth a xs 0) /\
+  getitem xs (KVec (uvec (Z.of_nat a) (length xs))) = Ok (nth a xs 0).
+Proof. intros H. split; apply getitem_vec; auto. Qed.
+
+(** boolean form of the in-range condition of a whole history (used by the examples and evaluated
+    by the correspondence run on every generated history) *)
+Fixpoint valid_histb (xs : list Z) (ops : list op) : bool :=
+  match ops with
+  | [] => true
+  | o :: ops' => valid_opb xs o && valid_histb (fst (pystep xs o)) ops'
+  end.
+
+Lemma valid_opb_sound xs o : valid_opb xs o = true -> valid_op xs o.
+Proof. destruct o; cbn [valid_opb valid_op]; auto; apply valid_keyb_sound. Qed.
+
+Lemma valid_histb_sound ops : forall xs, valid_histb xs ops = true -> valid_hist xs ops.
+Proof.
+  induction ops as [|o ops IH]; intros xs H; cbn [valid_histb valid_hist] in *; [exact I|].
+  apply andb_prop in H. destruct H as [H1 H2]. split; [apply valid_opb_sound; exact H1|apply IH; exact H2].
+Qed.
